@@ -271,6 +271,55 @@ func KillBefore(c Cmd, rec *Trace, idx int) (KillResult, error) {
 	return res, nil
 }
 
+// FailResult describes an error-injection run (the child is NOT killed: the chosen
+// system call fails with the given errno and the child carries on).
+type FailResult struct {
+	Aligned bool   // exactly the intended call failed with the injected error
+	Why     string // when not aligned
+	Exit    int    // exit status of the child (-1: did not exit normally)
+	Trace   *Trace
+}
+
+// FailAt re-runs the child and makes the call that the recorded trace rec has at
+// index idx fail with errno (e.g. "EIO", "ENOSPC").
+func FailAt(c Cmd, rec *Trace, idx int, errno string) (FailResult, error) {
+	name := rec.Calls[idx].Name
+	when := rec.ordinal(idx)
+	tr, err := c.strace("-e", fmt.Sprintf("inject=%s:error=%s:when=%d", name, errno, when))
+	if err != nil {
+		return FailResult{}, err
+	}
+	res := FailResult{Trace: tr, Exit: tr.Exit}
+	if tr.Killed {
+		res.Why = "child was killed"
+		return res, nil
+	}
+	want := 0
+	for i := 0; i <= idx; i++ {
+		if rec.Calls[i].Tid == rec.MainTid {
+			want++
+		}
+	}
+	got := tr.mainCalls()
+	if len(got) < want {
+		res.Why = fmt.Sprintf("only %d main-thread calls, expected at least %d", len(got), want)
+		return res, nil
+	}
+	recMain := rec.mainCalls()
+	for i := 0; i < want; i++ {
+		if got[i].Name != recMain[i].Name {
+			res.Why = fmt.Sprintf("call %d is %s, recorded %s", i, got[i].Name, recMain[i].Name)
+			return res, nil
+		}
+	}
+	if !strings.Contains(got[want-1].Ret, "INJECTED") {
+		res.Why = "the intended call was not the injected one: " + got[want-1].Line
+		return res, nil
+	}
+	res.Aligned = true
+	return res, nil
+}
+
 // Available reports whether strace injection works in this environment.
 func Available() bool {
 	cmd := exec.Command("strace", "-qq", "-o", "/dev/null", "-e", "trace=getpid", "-e", "inject=getpid:signal=KILL:when=65535", "true")
